@@ -1,6 +1,7 @@
 import Driver.Util
 import Driver.EvalD
 import Driver.StorageD
+import Driver.DecodeD
 
 /-!
   Line-protocol driver.  One operation per input line, one canonical output line per operation.
@@ -16,6 +17,7 @@ def step (st : State) (line : String) : State × String :=
   if line.startsWith "#" then (st, line) else
   match line.splitOn " " with
   | "E" :: args => (st, EvalD.step args)
+  | "D" :: args => (st, DecodeD.step args)
   | "S" :: args =>
     let (s', out) := StorageD.step st.storage args
     ({ st with storage := s' }, out)
